@@ -252,6 +252,30 @@ func genDeterminism(repo string) {
 					}
 				case *ast.IncDecStmt:
 					checkLHS(t, t.X)
+				case *ast.CallExpr:
+					// writes that are not assignments: sync/atomic stores and the like on something the receiver (or a package
+					// variable) holds, e.g. atomic.StoreUint64(k.rate, v) on a pointer shared by all copies of a keeper
+					fn := src(fset, t.Fun)
+					if strings.HasPrefix(fn, "atomic.Store") || strings.HasPrefix(fn, "atomic.Add") || strings.HasPrefix(fn, "atomic.Swap") ||
+						strings.HasPrefix(fn, "atomic.CompareAndSwap") || strings.HasSuffix(fn, ".Store") && len(t.Args) >= 1 && strings.Contains(fn, "atomic") {
+						if len(t.Args) > 0 {
+							a := t.Args[0]
+							if u, ok := a.(*ast.UnaryExpr); ok && u.Op == token.AND {
+								a = u.X
+							}
+							r := rootIdent(a)
+							if r != "" && (r == recv || (pkgVars[filepath.Dir(x.rel)][r] && !locals[r])) {
+								add(t, "memory-state", fn+"("+src(fset, t.Args[0])+", …)")
+							}
+						}
+					}
+					// methods of sync types held by the receiver: k.mu.Lock(), k.cache.Store(..), k.once.Do(..)
+					if se, ok := t.Fun.(*ast.SelectorExpr); ok {
+						m := se.Sel.Name
+						if (m == "Lock" || m == "RLock" || m == "Do" || m == "LoadOrStore") && rootIdent(se.X) == recv && recv != "" && strings.Contains(x.rel, "/keeper/") {
+							add(t, "memory-state", src(fset, t.Fun))
+						}
+					}
 				}
 				return true
 			})
